@@ -77,6 +77,10 @@ def kindP : Pm Kind := do
 inductive XCall where
   | prim (c : ICall)
   | nth (back : Bool) (k : Nat)
+  /-- `last()`: advance from the front until `None`, report the last element seen; consumes the iterator -/
+  | last
+  /-- `count()`: advance from the front until `None`, report how many elements were seen; consumes the iterator -/
+  | count
 
 def xcall : Pm XCall := do
   let t ← tok
@@ -85,6 +89,8 @@ def xcall : Pm XCall := do
   | "b" => pure (.prim .nextBack)
   | "l" => pure (.prim .len)
   | "h" => pure (.prim .sizeHint)
+  | "z" => pure .last
+  | "c" => pure .count
   | _ =>
     if t.startsWith "n" then
       match (t.drop 1).toString.toNat? with
@@ -109,6 +115,20 @@ def xstep {σ : Type} (step : σ → ICall → R (σ × IOut)) (st : σ) : XCall
       | .slot (some _) => pure ()
       | _ => return (st, .slot none)
     step st adv
+  | .last | .count => .error .fuel   -- handled by `xdrain` (they consume the machine)
+
+/-- `last()` / `count()` on a machine: run `next` until it answers `none` (fuel = an upper bound on the remaining length) -/
+def xdrain {σ : Type} (step : σ → ICall → R (σ × IOut)) (fuel : Nat) (st : σ) : R (σ × Option Nat × Nat) := do
+  let mut st := st
+  let mut lastSlot : Option Nat := none
+  let mut n := 0
+  for _ in [0:fuel + 1] do
+    let (st', o) ← step st .next
+    st := st'
+    match o with
+    | .slot (some i) => lastSlot := some i; n := n + 1
+    | _ => return (st, lastSlot, n)
+  pure (st, lastSlot, n)
 
 /-! ## canonical printing -/
 def showOptP : Option Int → String
@@ -225,10 +245,11 @@ def buildOther (kind : Kind) (xs : Array Entry) : R (Store Int) :=
   | .dpq => DQ.pushAll xs.toList Store.empty
 
 /-- run an `iter_mut` program on the map.  Programs made of primitive calls only go through the model's own
-`iterMutRun` (the function the theorems are about); programs containing `nth`/`nth_back` are desugared call by call. -/
-def runIterMut (kind : Kind) (prog : Array (XCall × IMWrite Int)) (s : Store Int) : R (Store Int × String) := do
+`iterMutRun` (the function the theorems are about); programs containing `nth`/`nth_back`/`last`/`count` are desugared call by
+call.  Returns the rewritten store, the outputs, and whether the guard was consumed inside the program (`last`/`count`). -/
+def runIterMut (kind : Kind) (prog : Array (XCall × IMWrite Int)) (s : Store Int) : R (Store Int × String × Bool) := do
   let n := s.map.size
-  let prims := prog.toList.filterMap fun (c, w) => match c with | .prim c => some (c, w) | .nth _ _ => none
+  let prims := prog.toList.filterMap fun (c, w) => match c with | .prim c => some (c, w) | _ => none
   if prims.length == prog.size then
     -- outputs are shown against the map as it was when each call was made: replay the writes alongside
     let (outs, m) ← iterMutRun kind n prims PIterMut.new (DIterMut.new n) s.map
@@ -239,37 +260,93 @@ def runIterMut (kind : Kind) (prog : Array (XCall × IMWrite Int)) (s : Store In
       match o with
       | .slot (some i) => map := IMap.applyWrite map i w
       | _ => pure ()
-    pure ({ s with map := m }, out)
+    pure ({ s with map := m }, out, false)
   else
     let mut map := s.map
     let mut out := ""
     let mut pit := PIterMut.new
     let mut dit := DIterMut.new n
+    let mut gone := false
     for (c, w) in prog do
-      let o ← match kind with
-        | .pq => do
-          let (it', o) ← xstep (fun it c => pure (PIterMut.step n it c)) pit c
-          pit := it'
-          pure o
-        | .dpq => do
-          let (it', o) ← xstep (DIterMut.step n) dit c
-          dit := it'
-          pure o
-      out := out ++ " " ++ showOut map o
-      match o with
-      | .slot (some i) => map := IMap.applyWrite map i w
-      | _ => pure ()
-    pure ({ s with map := map }, out)
+      if gone then
+        out := out ++ " gone"
+      else
+        match c with
+        | .last | .count =>
+          let (lastSlot, cnt) ← match kind with
+            | .pq => do
+              let (_, l, k) ← xdrain (fun it c => pure (PIterMut.step n it c)) n pit
+              pure (l, k)
+            | .dpq => do
+              let (_, l, k) ← xdrain (DIterMut.step n) n dit
+              pure (l, k)
+          gone := true
+          match c with
+          | .last => out := out ++ " " ++ showOut map (.slot lastSlot)
+          | _ => out := out ++ s!" l {cnt}"
+        | _ =>
+          let o ← match kind with
+            | .pq => do
+              let (it', o) ← xstep (fun it c => pure (PIterMut.step n it c)) pit c
+              pit := it'
+              pure o
+            | .dpq => do
+              let (it', o) ← xstep (DIterMut.step n) dit c
+              dit := it'
+              pure o
+          out := out ++ " " ++ showOut map o
+          match o with
+          | .slot (some i) => map := IMap.applyWrite map i w
+          | _ => pure ()
+    pure ({ s with map := map }, out, gone)
+
+/-- the `late` mode of the harness: the references are collected, the guard is dropped (heap rebuilt on the UNCHANGED
+priorities), and only then the writes are performed — what `iter_mut().collect::<Vec<_>>()` followed by writes does -/
+def runIterMutLate (kind : Kind) (prog : Array (XCall × IMWrite Int)) (s : Store Int) : R (Store Int × String) := do
+  let nowrite : IMWrite Int := ⟨none, none⟩
+  let (_, out, _) ← runIterMut kind (prog.map fun (c, _) => (c, nowrite)) s
+  let s1 ← match kind with | .pq => MaxQ.heapBuild s | .dpq => DQ.heapBuild s
+  -- now the writes, in yield order, with nobody rebuilding afterwards
+  let n := s.map.size
+  let mut map := s1.map
+  let mut pit := PIterMut.new
+  let mut dit := DIterMut.new n
+  for (c, w) in prog do
+    let o ← match kind with
+      | .pq => do
+        let (it', o) ← xstep (fun it c => pure (PIterMut.step n it c)) pit c
+        pit := it'
+        pure o
+      | .dpq => do
+        let (it', o) ← xstep (DIterMut.step n) dit c
+        dit := it'
+        pure o
+    match o with
+    | .slot (some i) => map := IMap.applyWrite map i w
+    | _ => pure ()
+  pure ({ s1 with map := map }, out)
 
 def runCursor (m : IMap Int) (calls : Array XCall) : String := Id.run do
   let mut c := Cursor.new m.size
   let mut out := ""
+  let mut gone := false
   for x in calls do
-    match xstep (fun c k => pure (Cursor.step c k)) c x with
-    | .ok (c', o) =>
-      c := c'
-      out := out ++ " " ++ showOut m o
-    | .error _ => out := out ++ " fault"
+    if gone then
+      out := out ++ " gone"
+    else
+      match x with
+      | .last | .count =>
+        match xdrain (fun c k => pure (Cursor.step c k)) m.size c with
+        | .ok (_, l, k) =>
+          gone := true
+          out := out ++ (match x with | .last => " " ++ showOut m (.slot l) | _ => s!" l {k}")
+        | .error _ => out := out ++ " fault"
+      | _ =>
+        match xstep (fun c k => pure (Cursor.step c k)) c x with
+        | .ok (c', o) =>
+          c := c'
+          out := out ++ " " ++ showOut m o
+        | .error _ => out := out ++ " fault"
   pure out
 
 /-- the sorted iterators as machines over the (consumed copy of the) store; outputs are printed directly -/
@@ -296,8 +373,24 @@ def runSorted (kind : Kind) (calls : Array XCall) (s : Store Int) : R (String ×
   let mut s := s
   let t0 := s.ticks
   let mut out := ""
+  let mut gone := false
   for c in calls do
+    if gone then
+      out := out ++ " gone"
+      continue
     let o ← match c with
+      | .last | .count => do
+        -- pop from the front until empty
+        let mut lastE : Option Entry := none
+        let mut cnt := 0
+        for _ in [0:s.size + 1] do
+          let (s', o) ← sortedStep kind s .next
+          s := s'
+          match o with
+          | .item (some e) => lastE := some e; cnt := cnt + 1
+          | _ => break
+        gone := true
+        pure (match c with | .last => SOut.item lastE | _ => SOut.len cnt)
       | .prim c => do
         let (s', o) ← sortedStep kind s c
         s := s'
@@ -409,9 +502,14 @@ def exec (st : St) (op : String) : Pm Res := do
     let n ← nat
     let prog ← rep n (do let c ← xcall; let w ← writeP; pure (c, w))
     pure <| do
-      let (s, out) ← runIterMut st.kind prog s
-      let s ← if mode == "drop" then (match st.kind with | .pq => MaxQ.heapBuild s | .dpq => DQ.heapBuild s) else pure s
-      pure ({ st with s := s }, out)
+      if mode == "late" then
+        let (s, out) ← runIterMutLate st.kind prog s
+        pure ({ st with s := s }, out)
+      else
+        let (s, out, gone) ← runIterMut st.kind prog s
+        -- `last()` / `count()` consume the guard, whose Drop rebuilds, whatever the mode says
+        let s ← if mode == "drop" || gone then (match st.kind with | .pq => MaxQ.heapBuild s | .dpq => DQ.heapBuild s) else pure s
+        pure ({ st with s := s }, out)
   | "extend" =>
     let lo ← nat; let _hi ← optNat; let xs ← entries
     pure <| kOp st (fun s => do let s ← MaxQ.extend s lo xs; pure (s, "unit"))
@@ -425,6 +523,7 @@ def exec (st : St) (op : String) : Pm Res := do
     pure <| kOp st (fun _ => do let s ← MaxQ.fromVec xs; pure (s, "unit"))
                    (fun _ => do let s ← DQ.fromVec xs; pure (s, "unit"))
   | "append" =>
+    let _cap ← nat    -- the other queue's initial capacity: not part of the modelled state
     let xs ← entries
     pure <| do
       let o ← buildOther st.kind xs
@@ -563,7 +662,7 @@ def execCrash (st : St) (k : Nat) (op : String) : Pm (Except String (Option (Kin
     let _mode ← tok
     let n ← nat
     let prog ← rep n (do let c ← xcall; let w ← writeP; pure (c, w))
-    let prims := prog.toList.filterMap fun (c, w) => match c with | .prim c => some (c, w) | .nth _ _ => none
+    let prims := prog.toList.filterMap fun (c, w) => match c with | .prim c => some (c, w) | _ => none
     if prims.length != prog.size then throw "crash mirror: iter_mut programs with nth are not supported"
     pure <| if pq then fin (Crash.MaxQ.iterMutDropF k s prims) else fin (Crash.DQ.iterMutDropF k s prims)
   | "extend" =>
@@ -576,6 +675,7 @@ def execCrash (st : St) (k : Nat) (op : String) : Pm (Except String (Option (Kin
     let _lo ← nat; let _hi ← optNat; let xs ← entries
     pure <| if pq then fin (Crash.MaxQ.fromIterF (P := Int) k xs) else fin (Crash.DQ.fromIterF (P := Int) k xs)
   | "append" =>
+    let _cap ← nat
     let xs ← entries
     pure <| match buildOther st.kind xs with
       | .error f => .error s!"model fault {showFaultSite f} while building the other queue"
